@@ -390,6 +390,7 @@ func c06HistWorker(args []string) int {
 		viol("history:harness", "%v", err)
 		return 1
 	}
+	c06AdjacentBoundary(start, viol, &evals)
 	names := []string{"ia", "ib", "ic"}
 	iid := map[string]string{}
 	for _, n := range names {
@@ -559,6 +560,104 @@ func c06HistWorker(args []string) int {
 	fmt.Printf("EVAL\t%d\n", evals)
 	fmt.Println("DONE")
 	return 0
+}
+
+// c06AdjacentBoundary: three instances created one after the other (adjacent instance ids, adjacent in the store) whose key
+// sets meet at the boundary - the greatest datum key of one equals the smallest datum key of the next ("m", "t"). The
+// neighbour overwrites / deletes exactly that key in a child version. Listings and range reads of every instance at both
+// versions are compared with a plain map per (instance, version): a scan of one instance must stop at its own last key.
+func c06AdjacentBoundary(start uint32, viol func(key, f string, a ...interface{}), evals *int64) {
+	root, err := vsrv.NewRepo()
+	if err != nil {
+		viol("history:harness", "%v", err)
+		return
+	}
+	sets := map[string][]string{"ja": {"a", "m"}, "jb": {"m", "t"}, "jc": {"t", "z"}}
+	order := []string{"ja", "jb", "jc"}
+	for _, n := range order {
+		if err := vsrv.NewInstance(root, "keyvalue", n, nil); err != nil {
+			viol(fmt.Sprintf("history:create:start-%d", start), "creating instance %s: %v", n, err)
+			return
+		}
+	}
+	model := map[string]map[string]map[string]string{"root": {}, "child": {}} // version -> instance -> key -> value
+	for _, n := range order {
+		model["root"][n], model["child"][n] = map[string]string{}, map[string]string{}
+		for _, k := range sets[n] {
+			v := `"` + n + "/" + k + `/root"` // a JSON string: keyrangevalues?json=true embeds the stored bytes
+			vsrv.PostS("node/"+root+"/"+n+"/key/"+k, v)
+			model["root"][n][k], model["child"][n][k] = v, v
+		}
+	}
+	vsrv.Commit(root)
+	child, err := vsrv.NewVersion(root)
+	if err != nil {
+		viol("history:harness", "%v", err)
+		return
+	}
+	// the younger neighbour rewrites its smallest key, the next one deletes its smallest key
+	vsrv.PostS("node/"+child+"/jb/key/m", `"jb/m/child"`)
+	model["child"]["jb"]["m"] = `"jb/m/child"`
+	vsrv.Delete("node/" + child + "/jc/key/t")
+	delete(model["child"]["jc"], "t")
+	for vn, u := range map[string]string{"root": root, "child": child} {
+		for _, n := range order {
+			m := model[vn][n]
+			var want []string
+			for k := range m {
+				want = append(want, k)
+			}
+			sort.Strings(want)
+			wj, _ := json.Marshal(want)
+			if len(want) == 0 {
+				wj = []byte("[]")
+			}
+			*evals++
+			if r := vsrv.Get("node/" + u + "/" + n + "/keys"); r.Code != 200 || strings.TrimSpace(string(r.Body)) != string(wj) {
+				viol("history:adjacent-boundary:keys", "instance %s at the %s version lists %s, its own keys are %s (neighbour instances share its boundary keys)", n, vn, r, wj)
+			}
+			for _, iv := range [][2]string{{"0", "~"}, {sets[n][1], sets[n][1]}, {sets[n][0], sets[n][1]}, {sets[n][1], "~"}} {
+				*evals++
+				r := vsrv.Get("node/" + u + "/" + n + "/keyrangevalues/" + iv[0] + "/" + iv[1] + "?json=true")
+				got := map[string]string{}
+				if r.Code == 200 {
+					var raw map[string]json.RawMessage
+					json.Unmarshal(r.Body, &raw)
+					for k, v := range raw {
+						got[k] = string(v)
+					}
+				}
+				exp := map[string]string{}
+				for k, v := range m {
+					if k >= iv[0] && k <= iv[1] {
+						exp[k] = v
+					}
+				}
+				if r.Code != 200 || fmt.Sprint(got) != fmt.Sprint(exp) {
+					viol("history:adjacent-boundary:keyrangevalues", "instance %s at the %s version: keyrangevalues/%s/%s answers %s, its own content in that interval is %v", n, vn, iv[0], iv[1], r, exp)
+				}
+				*evals++
+				rk := vsrv.Get("node/" + u + "/" + n + "/keyrange/" + iv[0] + "/" + iv[1])
+				var gk []string
+				json.Unmarshal(rk.Body, &gk)
+				var ek []string
+				for k := range exp {
+					ek = append(ek, k)
+				}
+				sort.Strings(ek)
+				if rk.Code != 200 || fmt.Sprint(gk) != fmt.Sprint(ek) {
+					viol("history:adjacent-boundary:keyrange", "instance %s at the %s version: keyrange/%s/%s answers %s, its own keys in that interval are %v", n, vn, iv[0], iv[1], rk, ek)
+				}
+			}
+			for k, v := range m {
+				*evals++
+				if g := vsrv.Get("node/" + u + "/" + n + "/key/" + k); g.Code != 200 || string(g.Body) != v {
+					viol("history:adjacent-boundary:point", "instance %s at the %s version: key %s reads %s, wanted %q", n, vn, k, g, v)
+				}
+			}
+		}
+	}
+	fmt.Println("OUTCOME\tadjacent-boundary-checked")
 }
 
 func c06Snap(root, child, inst string, keys []string, evals *int64) string {
